@@ -92,6 +92,9 @@ PAIRS = [
          x="ao", y="vbas", tables=["rf_loc", "ao_loc"], partition=("thread", "g", "ngrids")),
     dict(name="SDMX orbital contraction with the grid displacement (x component)", rel="mod_cider/fast_sdmx.c", fwd="SDMXcontract_ao_to_bas_grid", bwd="SDMXcontract_ao_to_bas_grid_bwd",
          x="ao", y="vbas", tables=["rf_loc", "ao_loc"], partition=("thread", "g", "ngrids")),
+    dict(name="SDMX orbital contraction, l=1 block (values, three displacement components, gradient components)", rel="mod_cider/fast_sdmx.c", fwd="SDMXcontract_ao_to_bas_l1",
+         bwd="SDMXcontract_ao_to_bas_l1_bwd", x="ao", y="vbas", tables=["rf_loc", "ao_loc"], partition=("thread", "g", "ngrids"),
+         requires=lambda a: [tm.mk_le(tm.ONE, a["nrf"]), tm.mk_le(tm.ONE, a["ngrids"])]),
     dict(name="l=1 coefficient fill", rel="mod_cider/conv_interpolation.c", fwd="fill_l1_coeff_fwd", bwd="fill_l1_coeff_bwd",
          x="f_u", y="d_uv", tables=[]),
 ]
@@ -527,11 +530,101 @@ def unit_registry(ctx):
     for what in ("contract_rad_to_orb / contract_orb_to_rad: iteration-space equality (only the local kernel / index / guard agreement is under contract, unit rad-orb)",
                  "compute_mol_convs_* / compute_pot_convs_*",
                  "LCAOInterpolator._interpolate_nopar_atom and the Python forward / backward chains",
-                 "SDMXBasePlan.get_features / get_vxc", "SDMXcontract_ao_to_bas_l1 / _l1_bwd (scratch-buffer pattern outside the supported C subset)",
+                 "SDMXBasePlan.get_features / get_vxc",
                  "contract_shl_to_alpha_l1 / _bwd (two different collapsed block loops: the bijection needs a div/mod re-indexing the matcher does not find)",
                  "project_conv_to_spline / project_spline_to_conv (loop nests related through the atom <-> shell tables of the C-built struct)"):
         ctx.assume("UNVERIFIED adjoint pair (not claimed): %s" % what)
     ctx.holds("pairs under contract", len(PAIRS) + len(INPLACE) >= 6, "", [])
+
+
+def unit_rad2orb_wrapper(ctx):
+    """ATCBasis.convert_rad2orb_ (the wrapper through which radial <-> orbital contractions are made with an offset into wider rows): frame and hand-over.
+    The C routines ADD into their output window (C10 / rad-orb: they address columns [offset, offset + nalpha) of rows of length stride).  With zero_output the
+    wrapper zeroes exactly that window first — every other column of p_uq (the blocks earlier calls with other offsets wrote) is left as it was; the input side
+    is not written; stride = row length of p_uq and offset are handed to C unchanged."""
+    from pyvc.interp import Obj, Unsupported, PyRaise
+    from contracts.common import sym_array, all_paths, same_elements
+    LM = "ciderpress.dft.lcao_convolutions"
+    it = ctx.interp
+    mod = it.load_module(LM)
+    libc = mod.ns["libcider"]
+    seen = []
+    for fn in ("contract_rad_to_orb", "contract_orb_to_rad"):
+        it.externals["%s.%s" % (libc.name, fn)] = (lambda name: (lambda interp, *a: seen.append((name,) + a)))(fn)
+    it.externals["%s.get_atco_nao" % libc.name] = lambda interp, *a: 2
+    it.externals["%s.get_atco_natm" % libc.name] = lambda interp, *a: 1
+    fq = [LM + ":ATCBasis.convert_rad2orb_"]
+    nrad, nlm, nalpha, stride, nao = 2, 4, 2, 5, 2
+    atco = Obj(mod.ns["ATCBasis"])
+    atco.fields["_atco"] = "atco-ptr"
+    atco.fields["natm"] = 1
+    for rad2orb in (True, False):
+        for zero_output in (True, False):
+            for offset in (None, 0, 1, 3):
+                theta = sym_array("t", (nrad, nlm, nalpha))
+                p_uq = sym_array("p", (nao, stride))
+                t0, p0 = theta.copy(), p_uq.copy()
+                loc = np.array([0, nrad], dtype=np.int32) if rad2orb else np.array([0] * nrad, dtype=np.int32)
+                rads = sym_array("rad", (nrad,))
+                del seen[:]
+                tag = "convert_rad2orb_[rad2orb=%s, zero_output=%s, offset=%s]" % (rad2orb, zero_output, offset)
+                try:
+                    ps = all_paths(it, lambda: it.call_method(atco, "convert_rad2orb_", [theta, p_uq, loc, rads], {"rad2orb": rad2orb, "offset": offset, "zero_output": zero_output}))
+                except (Unsupported, PyRaise) as e:
+                    ctx.undecided("%s runs" % tag, str(e)[:200], fq)
+                    continue
+                ok_ret = len(ps) == 1 and ps[0][0] == "return" and len(seen) == 1
+                ctx.holds("%s: accepted, one C call" % tag, ok_ret, "%s" % [(p_[0], str(p_[1])[:80]) for p_ in ps], fq)
+                if not ok_ret:
+                    continue
+                off = offset or 0
+                win = range(off, off + nalpha)
+                if rad2orb:
+                    okw = all((tm.lift(p_uq[u, c]) is tm.ZERO) if (zero_output and c in win) else (tm.lift(p_uq[u, c]) is tm.lift(p0[u, c])) for u in range(nao) for c in range(stride))
+                    oki = same_elements(theta, t0)
+                    what = "p_uq: the window [offset, offset + nalpha) is %s, every other column is unchanged; theta_rlmq is not written" % ("zeroed" if zero_output else "kept")
+                else:
+                    okw = all((tm.lift(x) is tm.ZERO) for x in theta.reshape(-1)) if zero_output else same_elements(theta, t0)
+                    oki = same_elements(p_uq, p0)
+                    what = "theta_rlmq is %s; p_uq is not written" % ("zeroed" if zero_output else "kept")
+                ctx.holds("%s: %s" % (tag, what), okw and oki, "", fq, witness={"rad2orb": rad2orb, "zero_output": zero_output, "offset": offset}, replay=replay_rad2orb_wrapper())
+                a = seen[0]
+                ctx.holds("%s: C receives (nrad, nlm, nalpha, stride, offset) of the arrays" % tag,
+                          a[0] == ("contract_rad_to_orb" if rad2orb else "contract_orb_to_rad") and [int(x) for x in (a[5], a[6], a[8], a[9], a[10])] == [nrad, nlm, nalpha, stride, off], str(a[5:]), fq)
+
+
+def replay_rad2orb_wrapper():
+    def replay(wit):
+        from pyvc import native
+        native.install_shim()
+        import ciderpress.dft.lcao_convolutions as L
+        rec = []
+
+        class Spy(object):
+            def __getattr__(self, name):
+                if name == "get_atco_nao":
+                    return lambda *a: 2
+                if name == "get_atco_natm":
+                    return lambda *a: 1
+                return lambda *a: rec.append(name)
+        real = L.libcider
+        L.libcider = Spy()
+        try:
+            class A(L.ATCBasis):
+                def __del__(self):          # no C object behind this instance
+                    pass
+            at = A.__new__(A)
+            at._atco = None
+            at.natm = 1
+            p = np.arange(10, dtype=np.float64).reshape(2, 5) + 1
+            p0 = p.copy()
+            at.convert_rad2orb_(np.ones((2, 4, 2)), p, np.array([0, 2], dtype=np.int32), np.ones(2), rad2orb=True, offset=3, zero_output=True)
+        finally:
+            L.libcider = real
+        outside = [c for c in range(5) if c not in (3, 4)]
+        changed = float(np.max(np.abs(p[:, outside] - p0[:, outside])))
+        return {"reproduced": bool(changed > 0), "columns_outside_the_window_changed_by": changed, "p_uq_after": p.tolist()}
+    return replay
 
 
 def unit_atc_adjoint(fn):
@@ -708,6 +801,7 @@ def units():
     u = [("registry", unit_registry)]
     for fn in ("multiply_atc_integrals", "multiply_atc_integrals_vk"):
         u.append(("atc-adjoint/" + fn, unit_atc_adjoint(fn)))
+    u.append(("rad2orb-wrapper", unit_rad2orb_wrapper))
     for P in PAIRS:
         u.append(("pair/%s" % P["fwd"], unit_pair(P)))
     for fwd, bwd, tabs in INPLACE:
